@@ -463,6 +463,8 @@ def gen_nest(rng, names):
     p0 = rng.choice(pool)
     rest_pool = [n for n in pool if n != p0]
     params = [p0] + [rng.choice(rest_pool) for _ in range(k - 1)]
+    if e != p0 and rng.random() < 0.5:
+        params[-1] = e  # the innermost parameter re-uses the stage binder the sequence came from
     j = rng.choice(pool)
     args = [rng.choice([f"{e}.jets", f"Where({e}.jets, lambda {j}: {j}.pt >= 0)",
                         f"Select({e}.jets, lambda {j}: {j})"])]
